@@ -43,6 +43,9 @@ def check(repo: Repo, rep: Report) -> None:
     rep.rule("F1-terminal-fan-out", "source terminal handlers: same terminal kind to every open window, then to the subscriber", floor=10)
     rep.rule("F3-buffer-is-window", "buffer_* = window_*(same arguments) + flat_map(to_list)", floor=6)
     m = model_of(repo)
+    rep.rule("F0-scheduler-forwarded", "every subscription an operator makes on behalf of a subscriber passes that subscriber's scheduler on", floor=1)
+    for rel_, q_ in ((f"{O}_join.py", "join_.join.subscribe"), ("reactivex/internal/utils.py", "add_ref.subscribe")):
+        TC.rule_scheduler_forwarded(rep, "F0-scheduler-forwarded", repo.fn(rel_, q_))
     for key in WINDOWS:
         TC.check_operator(repo, rep, "K1-signature", key,
                           lambda k, slot: "Windows must receive every element while open and end with the source's terminal kind.")
